@@ -29,11 +29,13 @@ type c06WL struct {
 
 var c06WLs = []c06WL{
 	{"none", nil},
-	{"exact", []string{"good.test"}},
-	{"dot", []string{".good.test"}},
-	{"star", []string{"*.good.test"}},
-	{"port", []string{"good.test:8443"}},
-	{"anyport", []string{"good.test:*"}},
+	// wiki.test: a name with letters that non-ASCII characters case-map onto (U+0130 -> i, U+212A -> k); proxy.test /
+	// proxy.test:4180: the hosts the requests are made to (operators do whitelist their own host)
+	{"exact", []string{"good.test", "wiki.test", "proxy.test"}},
+	{"dot", []string{".good.test", ".wiki.test"}},
+	{"star", []string{"*.good.test", "*.wiki.test"}},
+	{"port", []string{"good.test:8443", "wiki.test:8443", "proxy.test:4180"}},
+	{"anyport", []string{"good.test:*", "wiki.test:*", "proxy.test:*"}},
 	{"ipv6", []string{"[::1]", "127.0.0.1:8443"}},
 	// entries with an empty host part (a trailing comma, an unset template value, a bare ":*"): accepted at start-up; per the
 	// documentation an entry names a domain, so an entry without one admits nothing
